@@ -3,6 +3,7 @@ package verifcheck
 import (
 	"fmt"
 	"math"
+	"regexp"
 	"runtime/debug"
 	"sort"
 	"strconv"
@@ -16,6 +17,8 @@ import (
 )
 
 const c06Rule = "rapid-generated cases = shared-model history of 8-45 engine ops (adds, batches below/above the parallel-path threshold, import, deletes, re-adds of deleted ids, metadata merges, reinforce, evolve, links/unlinks, auto-links, vacuum/refine, compress, snapshot, rewrite, restart, drop/re-create; 3 indexes x 8 ids, all metric x precision configs, text language and memory config on/off) + 3-12 QUERY steps (60% placed right after a delete / maintenance / compress / restart / batch / unlink): query vector (grid | exact copy of a stored vector | copy + offset | zero | none), k in 1..live+3, efSearch in {0,1,k,200}, optional filter of the documented grammar (OR of AND blocks of key op literal over the universe's keys), optional graph scope (root, 0-2 relations, direction ''/out/in/both, depth -1,0,1,2,3,7), optional text query (explicit parameter or CONTAINS clause) with alpha in {0,.3,.5,1,-1,2}. Every query is sent to VSearch, VSearchGraph, VSearchWithScores and VFilter; each answer must pass the validity predicate (live in the model and readable with VGet, no duplicates, <= k, scores non-increasing, model metadata can satisfy the filter, id inside the reference BFS scope, score inside the interval recomputed in float64 from the query and the VGet vector, times the bracketed decay factor). NON-TRIVIAL = at some query the queried index holds >= 1 deleted (possibly vacuumed) id, or the filter or the scope excludes >= 1 live id."
+
+var c06EvolvedRe = regexp.MustCompile(`evolved_(\w+?)_\d{12,}`)
 
 type c06Stats struct {
 	L          map[string]int
@@ -383,7 +386,14 @@ func (cr *c06Runner) query(q c06Query) string {
 	}
 	validate := func(ep string, hits []c06Hit, limit int, useFilter, useScope bool, scoreMode string, t0, t1 int64) string {
 		fail := func(f string, a ...any) string {
-			return fmt.Sprintf("%s(%s) = %s: ", ep, rq, c06Hits(hits, fm)) + fmt.Sprintf(f, a...) + "; index " + c06DescribeIndex(mi, is.dead)
+			call := rq.String()
+			switch ep {
+			case "VSearchWithScores": // takes neither filter nor scope nor efSearch
+				call = fmt.Sprintf("index=%s query=%s k=%d", rq.Idx, c06FmtVec(rq.Vec), rq.K)
+			case "VFilter":
+				call = fmt.Sprintf("index=%s filter=%q limit=%d", rq.Idx, rq.FilterText, rq.K)
+			}
+			return fmt.Sprintf("%s(%s) = %s: ", ep, call, c06Hits(hits, fm)) + fmt.Sprintf(f, a...) + "; index " + c06DescribeIndex(mi, is.dead)
 		}
 		st.l("ep:" + ep)
 		if len(hits) > 0 {
@@ -468,7 +478,9 @@ func (cr *c06Runner) query(q c06Query) string {
 			case "hybrid":
 				// alpha*sim (if the vector side found the id) + (1-alpha)*t with t in [0,1] (text score / max text score), times decay
 				a := c06Alpha(rq.Alpha)
-				hi := (a*sHi + (1 - a)) * fHi * (1 + rel)
+				// (when no text field is indexed the engine falls back to pure vector search: score = sim, which float32
+				// rounding of a cosine can push a hair above 1, i.e. above alpha*sim+(1-alpha))
+				hi := math.Max(a*sHi+(1-a), sHi) * fHi * (1 + rel)
 				if ht.Score < 0 || ht.Score > hi {
 					return fail("fused score of %q is %s, outside [0, alpha*sim+(1-alpha)] = [0, %s] (alpha %v, sim in [%s, %s], decay <= %s)", ht.ID, fm(ht.Score), fm(hi), a, fm(sLo), fm(sHi), fm(fHi))
 				}
@@ -586,7 +598,8 @@ func c06Run(c c06Case, seed int64, st *c06Stats) (msg string) {
 			q := c.Queries[qi]
 			qi++
 			if m := cr.query(q); m != "" {
-				return fmt.Sprintf("query #%d (after op %d): %s", qi-1, upto, m)
+				// ids minted by VEvolve carry a wall-clock suffix: mask it, rapid only shrinks failures whose text is reproducible
+				return c06EvolvedRe.ReplaceAllString(fmt.Sprintf("query #%d (after op %d): %s", qi-1, upto, m), "evolved_${1}_<time>")
 			}
 		}
 		return ""
@@ -658,7 +671,7 @@ func TestVerif_C06_history(t *testing.T) {
 		}
 		return
 	}
-	verifkit.RapidSetup(600, 40000)
+	verifkit.RapidSetup(1500, 150000)
 	rapid.Check(t, func(rt *rapid.T) {
 		c := c06Gen().Draw(rt, "case")
 		h := verifkit.Hash(c)
